@@ -590,6 +590,27 @@ func famAuthcav(r *Rng, o *Out, tier string) {
 			o.emit(fmt.Sprintf("(prohibits %s %s)", sxCav(c), d.Sx(kind)), res)
 		}
 	}
+	// hosted domains and ids are compared EXACTLY: letter case, characters that fold to ASCII letters (U+212A
+	// KELVIN SIGN, U+017F LONG S), a trailing dot or surrounding space all make another domain
+	{
+		hds := []string{"example.com", "Example.com", "EXAMPLE.COM", "example.com.", " example.com", "kompany.com", "\u212aompany.com", "systems.example", "\u017fy\u017ftem\u017f.example", ""}
+		for _, want := range hds {
+			for _, have := range hds {
+				for _, second := range []string{"", "other.example"} {
+					dr := &auth.DischargeRequest{Google: []*auth.GoogleAuth{{HD: have}}}
+					if second != "" {
+						dr.Google = append(dr.Google, &auth.GoogleAuth{HD: second, Email: "u@" + want})
+					}
+					t0 := time.Now()
+					dr.Expiry = t0.Add(time.Hour)
+					h := auth.ConfineGoogleHD(want)
+					res := guard(func() string { return sxErr(h.Prohibits(dr)) })
+					o.count("hd.exact")
+					o.emit(fmt.Sprintf("(prohibits %s %s)", sxCav(&h), sxDR(dr, t0.Unix(), int64(t0.Nanosecond()))), res)
+				}
+			}
+		}
+	}
 	// GetMaxValidity over sets with several and nested limits
 	for i := 0; i < n/4; i++ {
 		var mk func(depth int) []macaroon.Caveat
